@@ -19,8 +19,8 @@ TRUSTED_BASE = [
 _POOL = None
 
 
-class _CallTimeout(Exception):
-    pass
+class _CallTimeout(BaseException):
+    """raised by the SIGALRM handler; a BaseException so that no `except Exception` (in the library or in call_impl) swallows it"""
 
 
 def _alarm(signum, frame):
@@ -39,6 +39,20 @@ def _impl_one(t):
     signal.alarm(CALL_TIMEOUT_S)
     try:
         return ALGS[case["alg"]].call_impl(case, fmt, ot, names)
+    except _CallTimeout:
+        return {"error": "Timeout"}
+    finally:
+        signal.alarm(0)
+        signal.signal(signal.SIGALRM, old)
+
+
+def timed(thunk, limit=None):
+    """run a direct call of the implementation under the same wall-clock limit as impl_map's calls"""
+    import signal
+    old = signal.signal(signal.SIGALRM, _alarm)
+    signal.alarm(limit or CALL_TIMEOUT_S)
+    try:
+        return thunk()
     except _CallTimeout:
         return {"error": "Timeout"}
     finally:
@@ -77,6 +91,7 @@ class Check:
         self.failures = []           # the implementation fails the property (judged by verified checkers)
         self.known_hits = collections.OrderedDict()
         self.solver_faults = 0
+        self.call_timeouts = 0
         self.float_divergences = 0
         self.exhaustive_scopes = []
         self.notes = []
@@ -144,14 +159,38 @@ class Check:
                 continue
             if any(p.get(key) != want for key, want in pr.get("params", {}).items()):
                 continue
+            if pr.get("model_answers") is not None:
+                # the finding only covers inputs on which the model of the current code gives this answer
+                # (KF1: the model answers NotImplementedError exactly when KK's first partition is not perfect)
+                try:
+                    req = ALGS[alg].request(case, list(case["vals"]), True)
+                    a = model_query([req])[0]
+                    if not (isinstance(a, dict) and a.get("error") == pr["model_answers"]):
+                        continue
+                except Exception:      # noqa
+                    continue
             return k
         return None
+
+    @staticmethod
+    def _kf4_shape(case, observed):
+        """what computing on names instead of values can produce: a TypeError (string names), or bins in which every
+        name of a non-zero item still occurs exactly once (they are only packed by the wrong numbers).  Anything else -
+        lost, duplicated or invented items, other exceptions - is not explained by KF4."""
+        if isinstance(observed, dict) and "error" in observed:
+            return observed["error"] == "TypeError"
+        bins = observed.get("bins") if isinstance(observed, dict) else None
+        if bins is None:
+            return True            # a sums-only output: nothing to tell apart
+        names = [x for b in bins for x in b]
+        nonzero = sum(1 for v in case["vals"] if v != 0)
+        return len(names) == len(set(map(repr, names))) and nonzero <= len(names) <= len(case["vals"])
 
     def fail(self, alg, case, fmt, outtype, kind, observed, expected, extra=None):
         """the implementation fails the property on this case (already judged)"""
         if alg == "bin_completion" and fmt in ("dict_str", "dict_int", "names_valueof") and \
-                kind not in ("input-modified", "history-dependent", "not-repeatable", "oversize-accepted"):
-            kind = "names-not-values:" + kind       # KF4 explains wrong / failing answers on named items, nothing else
+                kind not in ("input-modified", "history-dependent", "not-repeatable", "oversize-accepted") and self._kf4_shape(case, observed):
+            kind = "names-not-values:" + kind       # KF4 explains TypeErrors and badly packed (but conserved) names, nothing else
         k = self.match_known(alg, case, fmt, kind)
         if k is not None:
             self.known_hits.setdefault(k["id"], {"finding": k, "count": 0, "first": {"case": case, "fmt": fmt}})
@@ -194,9 +233,13 @@ class Check:
                 self.corr_cases += 1
             by_id = {i: nm for i, nm in zip(ids, names)}
             self.evaluations += 1
+            if isinstance(got, dict) and got.get("error") == "Timeout":
+                self.call_timeouts += 1
+                self.stats[stream]["call-timeout (not judged)"] += 1
+                continue
             self.stats[stream][f"fmt:{fmt}"] += 1
             self.stats[stream][f"out:{ot}"] += 1
-            if alg.unmodelled and alg.unmodelled(case, fmt):
+            if alg.unmodelled and alg.unmodelled(case, fmt) and not (case["alg"] == "rnp" and not (isinstance(ans, dict) and ans.get("error") == "NotImplementedError")):
                 want, same = {"unmodelled": True}, True
                 self.stats[stream]["unmodelled"] += 1
             elif alg.relation:
@@ -210,7 +253,13 @@ class Check:
                                            "outtype": ot, "impl": got, "model": want, "request": req})
             self.sample({"request": req, "format": fmt, "outputtype": ot, "impl": got, "model": want})
             if judge:
-                for line, pred in judge(case, fmt, ot, got, names, ans):
+                try:
+                    items_ = judge(case, fmt, ot, got, names, ans)
+                except (KeyError, TypeError, IndexError, AttributeError, ValueError) as e:
+                    # the answer does not even have the shape of a result (None, wrong container, ...): a failure, not a crash of the check
+                    msg = f"the answer {json.dumps(got, default=str)[:200]} is not a result of the requested output type ({type(e).__name__}: {e})"
+                    items_ = [(None, lambda a, msg=msg: ("malformed-result", msg))]
+                for line, pred in items_:
                     pending.append((line, pred, (case, fmt, ot, got)))
         self.run_pending(pending)
 
@@ -225,10 +274,13 @@ class Check:
             if isinstance(ans, dict) and "bad" in ans:
                 raise InfraError(f"driver rejected request {line!r}: {ans}")
             try:
-                got = thunk()
+                got = timed(thunk)
             except Exception as e:  # noqa
                 got = {"error": exc_name(e)}
             self.evaluations += 1
+            if isinstance(got, dict) and got.get("error") == "Timeout":
+                self.call_timeouts += 1
+                continue
             self.corr_cases += 1
             self.stats[stream]["cases"] += 1
             self.distinct.add(line)
@@ -309,7 +361,7 @@ class Check:
 
         cov = {
             "obligations": aud["obligations"], "discharged": aud["discharged"],
-            "checker_cmd": "cd lean && lake build Prtpy PrtpyProofs prtpy_model && lake env lean .lake/audit/Audit_%s.lean  (#print axioms of every registered theorem)" % self.pid,
+            "checker_cmd": "cd lean && lake build Prtpy PrtpyProofs prtpy_model && lake env lean .lake/audit/Audit_%s_<pid>.lean  (#print axioms of every registered theorem; the file is generated by harness/audit.py)" % self.pid,
             "trusted_base": TRUSTED_BASE + self.assumptions,
             "theorems": aud["theorems"], "stated_not_proven": aud["stated_not_proven"],
             "forbidden_construct_hits": aud["forbidden_hits"], "leanchecker": aud.get("leanchecker", "not run (thorough tier only)"),
@@ -345,4 +397,10 @@ class Check:
         print(f"[{self.pid}] tier={self.tier} seed={self.seed} corr_cases={self.corr_cases} impl_calls={self.evaluations} "
               f"certified={self.stats['certified']['evaluations']} theorems={aud['discharged']}/{aud['obligations']} "
               f"disagreements={len(self.disagreements)} failures={len(self.failures)} wall={ev['wall_s']}s", file=sys.stderr)
-        return 1 if violations else 0
+        if violations:
+            return 1
+        if self.call_timeouts:
+            print(f"INFRA-FAILURE property={self.pid}: {self.call_timeouts} implementation call(s) exceeded {CALL_TIMEOUT_S} s and were not judged "
+                  f"(a timeout is never a verdict)", file=sys.stderr)
+            return 2
+        return 0
